@@ -86,6 +86,18 @@ def main(tier, seed, replay=None):
         programs.append(gen.program(rng.randrange(3, 14)))
     t_end = time.time() + (150 if tier == "quick" else 2400)
     ann = claripy.annotation.SimplificationAvoidanceAnnotation()
+
+    class UAnn(claripy.annotation.Annotation):
+        eliminatable = False
+        relocatable = False
+
+    class RAnn(claripy.annotation.Annotation):
+        eliminatable = False
+        relocatable = True
+
+        def relocate(self, src, dst):
+            return self
+    UA, RA = UAnn(), RAnn()
     for steps in programs:
         if time.time() > t_end or fail:
             break
@@ -106,6 +118,18 @@ def main(tier, seed, replay=None):
                     if others:
                         derived.append(("replace-var", claripy.replace(e, x, rng.choice(others) + 1)))
                 derived.append(("annotate", e.annotate(ann)))
+                # substitution inside annotated nodes (make_like's fast path copies stored fields)
+                if bvleaves:
+                    for a2 in (ann, UA, RA):
+                        ea = e.annotate(a2)
+                        x = rng.choice(bvleaves)
+                        derived.append(("replace-in-annotated", claripy.replace(ea, x, claripy.BVV(1, x.length))))
+                        others = [l for l in leaves if l.op == "BVS" and l.length == x.length and l is not x]
+                        if others:
+                            derived.append(("replace-in-annotated", claripy.replace(ea, x, rng.choice(others))))
+                            if isinstance(e, claripy.ast.BV):
+                                outer = (ea + 1) if rng.random() < 0.5 else claripy.Concat(ea, ea)
+                                derived.append(("replace-in-annotated", claripy.replace(outer, x, rng.choice(others))))
                 derived.append(("clear", e.annotate(ann).clear_annotations()))
                 if tier != "quick" or rng.random() < 0.3:
                     derived.append(("z3-simplify", claripy.simplify(e)))
